@@ -478,8 +478,13 @@ theorem compile_self_tail_call (isFn : Nat → Bool) (c : Ctx) (h : String) (arg
     (hn : (c.tail && h == c.funcname) = true) :
     compile isFn c (.call (.sym h) args) = (do
       let gs ← get
-      let code ← compileCallArgs isFn { c with tail := false } ((c.known.lookup h).bind (fun t => gs.fns[t]?)) 0 args
-      pure (code ++ [.prepareCall h args.length] ++ List.replicate (c.scopes + 1) .removeScope ++ [.goto 0], c.tail)) := by
+      -- after fix C04-04 a self call with the wrong number of arguments is an ordinary call
+      if (match (c.known.lookup h).bind (fun t => gs.fns[t]?) with
+          | some fo => if fo.varargs then decide (fo.nargs ≤ args.length) else args.length == fo.nargs
+          | none => true) then do
+        let code ← compileCallArgs isFn { c with tail := false } ((c.known.lookup h).bind (fun t => gs.fns[t]?)) 0 args
+        pure (code ++ [.prepareCall h args.length] ++ List.replicate (c.scopes + 1) .removeScope ++ [.goto 0], c.tail)
+      else pure ([.callExpr (.sym h) args], c.tail)) := by
   simp only [compile, hn]; rfl
 
 theorem compileCallArgs_lazy_position (isFn : Nat → Bool) (c : Ctx) (f : FnObj) (i : Nat) (e : Expr) (es : List Expr)
